@@ -316,7 +316,9 @@ def history(case, ctx, rng, tmp):
             md = {"run": "ms", "n": 3}
             md_before = copy.deepcopy(md)
             folder = os.path.join(tmp, f"ms{step}")
-            ms = ModelSaver(1, folder, "ep_{}.pt", save_initial=True, metadata=md)
+            # documented argument order (period, folder_path, file_name, save_initial, metadata, metadata_only): keyword and
+            # positional call forms mean the same
+            ms = ModelSaver(1, folder, "ep_{}.pt", save_initial=True, metadata=md) if step % 3 else ModelSaver(1, folder, "ep_{}.pt", True, md)
             try:
                 ctx.lib("ModelSaver.on_train_start", ms.on_train_start, st, tags=tags)
                 ctx.count("modelsaver_saves")
